@@ -233,7 +233,13 @@ def b_int(eng, st, node, a, kw, k, ctx):
         st.assume(eng.parse_int_fn()(v.t) == r)
         return k(st, V(INT, r))
     if v.s[0] == "opt":
-        raise Unsupported("int(optional)")
+        # int(None) is a TypeError; otherwise int of the value
+        s2 = st.fork()
+        s2.assume(v.t[0])
+        if eng.feasible(s2):
+            eng.throw(s2, "TypeError", node, ctx)
+        st.assume(z3.Not(v.t[0]))
+        return b_int(eng, st, node, [V(v.s[1], v.t[1])], kw, k, ctx)
     raise Unsupported(f"int({v})")
 
 
@@ -368,6 +374,18 @@ def ev_listcomp(eng, node, st, k, ctx):
         n0 = len(sub_st.pc)
         sub_st.env[var] = eng.list_get(sub_st, it, i)
         se = SpecEval(eng, sub_st, pre_state=s1.old)
+        el = node.elt
+        if (isinstance(el, ast.Call) and isinstance(el.func, ast.Name) and el.func.id == "float" and len(el.args) == 1 and isinstance(el.args[0], ast.Name)
+                and el.args[0].id == var and it.s[1] == STR):
+            # [float(w) for w in texts]: ValueError if some text is not a number, else the parsed numbers (parse_float: uninterpreted function of the text)
+            from .specs import UFUNCS
+            s_bad = s1.fork()
+            okv = fresh("floats_ok", z3.BoolSort())
+            s_bad.assume(z3.Not(okv))
+            eng.throw(s_bad, "ValueError", node, ctx)
+            s1.assume(okv)
+            pf = UFUNCS["parse_float"][2]
+            return k(s1, eng.new_list(s1, REAL, ln, z3.Lambda([i], pf(sub_st.env[var].t))))
         try:
             v = se.eval(node.elt)
         except Unsupported as e:
